@@ -1,3 +1,4 @@
 import Artela.Model.Base
 import Artela.Model.CallTree
 import Artela.Model.StateChanges
+import Artela.Props.C07
